@@ -57,6 +57,12 @@ func (h *vHist) checkLookups(tag string, acc []bool, retained func(i int) bool) 
 		if ph != nil && h.parent[i] >= 0 {
 			verifAssert(ph.Equal(&h.hash[h.parent[i]]) && pht == h.height[i]-1, tag+"previous-hash-wrong")
 		}
+		// a header the repository still holds in memory (a branch finds it) knows its predecessor,
+		// also when the predecessor itself has been pruned from memory; for headers served from
+		// header files only, "unknown" is accepted (reduced claim)
+		if _, inMemory := h.repo.branches.Find(h.hash[i]); inMemory >= 0 && h.parent[i] >= 0 {
+			verifAssert(ph != nil, tag+"previous-hash-unknown-for-header-in-memory")
+		}
 	}
 	// unknown hash
 	var unk bitcoin.Hash32
